@@ -687,6 +687,9 @@ class Engine:
         h = s.stubs.get(name[1:])
         if h is not None:
             s.stub_hits[name[1:]] = s.stub_hits.get(name[1:], 0) + 1
+            for k, (at, av, info) in enumerate(args):
+                if is_sym(A[k]) and isinstance(res(at), PtrT):          # stubs receive concrete pointers: fork over the feasible addresses
+                    return s.fork_arg(st, fr, I, args, k, 'pointer argument of ' + name[1:40])
             try:
                 r = h(s, st, fr, I, A)
             except NeedFork as nf:
@@ -1002,15 +1005,17 @@ def install_string_stubs(E):
         E.store(st, self, 8, d); E.store(st, self + 16, 8, max(newcap, 2 * 15)); return None
     S['_ZNSt7__cxx1112basic_stringIcSt11char_traitsIcESaIcEE9_M_mutateEmmPKcm'] = m_mutate
     def s_compare(E, st, fr, I, A):
-        a = s_bytes(E, st, A[0]); n = 0
-        while True:
-            b = E.load(st, A[1] + n, 1)
-            if is_sym(b): raise Unsupported('symbolic compare')
-            if b == 0: break
-            n += 1
-        bb = [E.load(st, A[1] + i, 1) for i in range(n)]
-        if any(is_sym(x) for x in a): raise Unsupported('symbolic string compare')
-        return 0 if a == bb else (1 if a > bb else mask(-1, 32))
+        import libc
+        a = s_bytes(E, st, A[0]); bb = libc.cchars(E, st, A[1])
+        x = a + [0]; y = bb + [0]; n = min(len(x), len(y)); r = 0
+        for i in reversed(range(n)):
+            p, q = x[i], y[i]
+            if not is_sym(p) and not is_sym(q):
+                if p != q: r = 1 if p > q else mask(-1, 32)
+                continue
+            P = bv(p, 8); Q = bv(q, 8)
+            r = z3.If(P == Q, bv(r, 32), z3.If(z3.UGT(P, Q), z3.BitVecVal(1, 32), z3.BitVecVal(mask(-1, 32), 32)))
+        return simp(r) if is_sym(r) else r
     S['_ZNKSt7__cxx1112basic_stringIcSt11char_traitsIcESaIcEE7compareEPKc'] = s_compare
     def cstr(E, st, p):
         out = []
@@ -1083,7 +1088,7 @@ def install_string_stubs(E):
             x = cur[i]
             if is_sym(x):
                 may = E.feasible(st, x == c)
-                if may and E.feasible(st, x != c): raise Unsupported('rfind: symbolic character may or may not match')
+                if may and E.feasible(st, x != c): raise NeedFork(x == c)
                 if may: return i
             elif x == c: return i
         return mask(-1, 64)
